@@ -614,7 +614,13 @@ Fixpoint order_by_loop (fuel : nat) (fields : list expr) (obf : list expr) (obd 
     match lx with
     | Some Comma => order_by_loop k fields obf obd
     | Some (RawString ordering_field) =>
-        match parse_usize ordering_field with
+        (* a number is a position unless an arithmetic operator follows it (fix 7b109d9) *)
+        dom position <- match parse_usize ordering_field with
+                        | Some i => dom nx <- next_lexem ;; dom _ <- drop_lexem ;;
+                                    ret (match nx with Some (ArithmeticOperator _) => None | _ => Some i end)
+                        | None => ret None
+                        end ;;
+        match position with
         | Some i =>
             if (1 <=? i) && (i <=? N.of_nat (List.length fields)) then
               match nth_error fields (N.to_nat (i - 1)) with
